@@ -87,6 +87,8 @@ pub struct Session {
 
 impl Session {
     async fn handle_io_error(&self, context: &str, error: std::io::Error) -> AnyTlsError {
+        #[cfg(feature = "verif")]
+        crate::verif::sched_point("handle_io_error_entry").await;
         tracing::error!(
             session_id = self.id(),
             ctx = context,
@@ -217,6 +219,8 @@ impl Session {
         if already_closed {
             return Ok(());
         }
+        #[cfg(feature = "verif")]
+        crate::verif::sched_point("close_after_flag").await;
         self.close_notify.notify_waiters();
 
         // Close stream data receiver so process_stream_data exits
@@ -233,6 +237,8 @@ impl Session {
 
         // Attempt to shutdown writer gracefully
         {
+            #[cfg(feature = "verif")]
+            crate::verif::sched_point("close_before_writer_lock").await;
             let mut writer = self.writer.lock().await;
             match time::timeout(Duration::from_secs(1), writer.shutdown()).await {
                 Ok(Ok(())) => {}
@@ -809,6 +815,9 @@ impl Session {
 
         tracing::trace!("[Session] Stream {} stored in session", stream_id);
 
+        #[cfg(feature = "verif")]
+        crate::verif::sched_point("open_before_syn").await;
+
         // Send SYN frame
         tracing::trace!("[Session] Sending SYN frame for stream {}", stream_id);
         let frame = Frame::control(Command::Syn, stream_id);
@@ -866,6 +875,8 @@ impl Session {
                 frame_cmd,
                 frame_stream_id
             );
+            #[cfg(feature = "verif")]
+            crate::verif::sched_point("wf_before_buffer_append").await;
             let mut buf = self.buffer.lock().await;
             let old_len = buf.len();
             buf.extend_from_slice(&buffer);
@@ -905,6 +916,9 @@ impl Session {
             }
         }
 
+        #[cfg(feature = "verif")]
+        crate::verif::sched_point("wf_after_buffer_take").await;
+
         // Log what we're about to send
         if buffer.len() >= 7 {
             tracing::info!(
@@ -932,6 +946,8 @@ impl Session {
                 "[Session] write_with_padding: Writing {} bytes without padding",
                 buffer.len()
             );
+            #[cfg(feature = "verif")]
+            crate::verif::sched_point("wp_before_writer_lock").await;
             let mut writer = self.writer.lock().await;
             if let Err(e) = writer.write_all(&buffer).await {
                 return Err(self.handle_io_error("write_without_padding", e).await);
@@ -960,6 +976,8 @@ impl Session {
             // Stop padding after stop packets
             // Note: We should probably disable send_padding, but that requires mutable access
             // For now, just write directly
+            #[cfg(feature = "verif")]
+            crate::verif::sched_point("wp_before_writer_lock").await;
             let mut writer = self.writer.lock().await;
             if let Err(e) = writer.write_all(&buffer).await {
                 return Err(self.handle_io_error("write_no_padding_stop", e).await);
@@ -975,6 +993,8 @@ impl Session {
 
         // If no sizes defined, write directly
         if pkt_sizes.is_empty() {
+            #[cfg(feature = "verif")]
+            crate::verif::sched_point("wp_before_writer_lock").await;
             let mut writer = self.writer.lock().await;
             if let Err(e) = writer.write_all(&buffer).await {
                 return Err(self.handle_io_error("write_no_padding_sizes", e).await);
@@ -985,6 +1005,8 @@ impl Session {
             return Ok(());
         }
 
+        #[cfg(feature = "verif")]
+        crate::verif::sched_point("wp_before_writer_lock").await;
         let mut writer = self.writer.lock().await;
 
         for size in pkt_sizes {
@@ -1337,6 +1359,14 @@ impl Session {
         process_span.record("bytes_out", total_bytes_out as u64);
         process_span.record("iterations", iteration);
         Ok(())
+    }
+
+    /// Number of entries in the stream table and the receiver table (verification hook)
+    #[cfg(feature = "verif")]
+    pub async fn verif_table_sizes(&self) -> (usize, usize) {
+        let streams = self.streams.read().await.len();
+        let receivers = self.stream_receive_tx.read().await.len();
+        (streams, receivers)
     }
 
     /// Get session sequence number
